@@ -98,7 +98,15 @@ def run_one(tape, cfg):
     out.policy = policy
 
     rng = np.random.RandomState(tape.draw(1000, "data"))
+    # the same source stored into two different (equal-looking) targets in one call
+    dup = nsrc > 1 and not shared and not npy and tape.chance(1, 4, "dup")
+    if dup:
+        srcs[1] = dict(srcs[0])
+        out.probe("same_source_twice")
+    wl["same_source_twice"] = bool(dup)
     arrays = [rng.randint(0, 1000, size=s["shape"]).astype("i8") for s in srcs]
+    if dup:
+        arrays[1] = arrays[0]
     sched = SimThreads(tape, policy=policy, step_cap=60000)
     saved_lock = du.Lock
     du.Lock = SimLock
@@ -190,6 +198,8 @@ def run_one(tape, cfg):
                 elif lock_kind == "serializable":
                     lock = du.SerializableLock()
                 dsrcs = [da.from_array(a, chunks=s["chunks"]) for a, s in zip(arrays, srcs)]
+                if dup:
+                    dsrcs[1] = dsrcs[0]
                 kw = {"lock": lock, "compute": compute, "return_stored": return_stored,
                       "scheduler": simget}
                 if use_regions:
